@@ -12,7 +12,7 @@ from ..gen import mesh as G
 
 PID = "C19"
 TITLE = "Samplers stay on their domain; Bezier evaluation matches Bernstein form"
-LEAN_MODULES = ["Mouette.Props.C19", "Mouette.Props.C19Source", "Mouette.Props.C19Ext", "Mouette.Props.C19Hist", "Mouette.Props.C19Fn"]
+LEAN_MODULES = ["Mouette.Props.C19", "Mouette.Props.C19Source", "Mouette.Props.C19Ext", "Mouette.Props.C19Hist", "Mouette.Props.C19Fn", "Mouette.Props.C19Bez"]
 REQUIRED_THEOREMS = [
     # sampling
     "box_uniform_contained", "box_grid_contained", "box_grid_count", "sphere_on_sphere", "ball_in_ball",
@@ -52,6 +52,9 @@ REQUIRED_THEOREMS = [
     "sphere_fn_on_sphere", "ball_fn_in_ball", "box_fn_returns_iff", "box_fn_contained", "polyline_fn_on_edges",
     "surface_fn_in_faces", "grid_no_halfway", "grid_resolution_unique", "grid_rounding_error_harmless",
     "grid_rounding_unique_int", "bridge_curveEvaluate", "bridge_orders", "curve_evaluate_source",
+    # round 5 — Props/C19Bez: as_polyline / as_surface / the two constructors translated as WHOLE functions (Generated/C19Bez*.lean)
+    "bridge_as_polyline", "bridge_as_surface", "bridge_inits", "bridge_export_descriptors", "as_polyline_source_spec",
+    "as_polyline_rejects", "as_surface_source_spec", "init_representation_independent", "as_polyline_bernstein_source",
 ]
 TRUSTED = [
     "Lean 4.33.0 kernel; axioms ⊆ {propext, Classical.choice, Quot.sound}",
@@ -80,6 +83,12 @@ TRUSTED = [
     "triples, uniforms, choice) and norm/cbrt/sqrt/round(n^(1/d)) are INJECTED arbitrary functions, so the theorems hold for any "
     "generator; that numpy.random.choice(size=n) returns n indices is a hypothesis of the polyline/surface bridges; float rounding of "
     "n**(1/d) is not modelled: grid_no_halfway / grid_rounding_error_harmless state when it cannot change round()",
+    "round 5 — whole-function translation of BezierCurve.as_polyline, BezierPatch.as_surface and the two constructors "
+    "(vlib/gen/c19_bez_translate.py -> Generated/C19Bez*.lean): trusted are that compiler and Model/BezierSource.lean (RawMeshData "
+    "containers as lists with append at the end, a created vertex attribute as an ordered key/value store, `for` as a state-threading "
+    "fold that stops at the first exception, PolyLine(out)/SurfaceMesh(out) keep the containers, Vec(x) is an injected value-preserving "
+    "conversion, numpy vector arithmetic is coordinatewise (evalVec)); self.evaluate / self._evaluate_row / de_casteljau are injected "
+    "functions in the export theorems and instantiated with the translated de_casteljau in as_polyline_bernstein_source",
 ]
 ASSUMPTIONS = ["agreement model/implementation is established on the cases explored in this run only",
                "grid count: res = round(n^(1/d)) is taken as the meaning of 'nearest perfect power' (root nearest); the oracle's integer "
@@ -1725,19 +1734,34 @@ def shrink(case, still):
 # ------------------------------------------------------------------------------------------------
 # translated fragments
 # ------------------------------------------------------------------------------------------------
-from ..gen.c19_translate import translate as _translate_fragments  # noqa: E402
-from ..gen.c19_fn_translate import translate as _translate_functions  # noqa: E402
+from ..gen import c19_translate as _TF, c19_fn_translate as _TW, c19_bez_translate as _TB  # noqa: E402
+
+
+def _stub(fname, site, detail):
+    """round 5: a site that raised must not leave the Generated file of an EARLIER tree on disk: it is replaced by a stub without
+    definitions, so that the bridges fail to build (broken obligation) and the build log never talks about another tree"""
+    msg = (str(detail) or "").replace("-/", "- /").replace("/-", "/ -")[:600]
+    T.write_generated(fname, f"/- STUB: the translation site\n     {site}\n   did not recognise the current source tree:\n     {msg}\n"
+                             f"   No definition is emitted; the bridge theorems that use this file cannot build. -/\n")
 
 
 def translate():
-    """round 1-3 fragments (index expressions, guards, per-coordinate maps, de_casteljau loop nest) + round 4 whole functions"""
-    return _translate_fragments() + _translate_functions()
+    """round 1-3 fragments (index expressions, guards, per-coordinate maps, de_casteljau loop nest) + round 4 whole functions
+    (samplers, AABB accessors, BezierCurve.evaluate / order) + round 5 whole functions (as_polyline, as_surface, constructors)"""
+    out = []
+    for name, fn, files in list(_TF.SITES) + list(_TW.SITES) + list(_TB.SITES):
+        rec = T.site(name, fn)
+        if not rec["ok"]:
+            for f in files: _stub(f, name, rec.get("detail", ""))
+        out.append(rec)
+    return out
 
 
 # every function / method defined in the anchor files (mouette/sampling.py, mouette/splines/bezier.py, mouette/geometry/aabb.py):
 #   translated  = a Generated/ definition is produced from that body on every run AND a bridge theorem uses it
 #   modelled    = hand model only, tied by the recorded-stream correspondence / oracle
-_C12 = "out-of-scope: box algebra (intersection/union/containment/projection/distance/padding/constructors) is property C12, not used by the samplers"
+_C12 = ("out-of-scope: box algebra (intersection/union/containment/projection/distance/padding/constructors) is property C12 (translated there: "
+        "Generated/C12Box.lean), not used by the samplers")
 SOURCE_MAP = {
     "mouette/sampling.py::sample_sphere": "translated",        # whole body -> C19FnSphere.sample_sphere; bridge_sample_sphere (+ C19Sphere.sphereCoord)
     "mouette/sampling.py::sample_ball": "translated",          # whole body -> C19FnBall.sample_ball; bridge_sample_ball (+ C19Ball.ballCoord)
@@ -1745,15 +1769,15 @@ SOURCE_MAP = {
     "mouette/sampling.py::sample_polyline": "translated",      # whole body -> C19FnPoly.sample_polyline; bridge_sample_polyline (+ C19Seg)
     "mouette/sampling.py::sample_surface": "translated",       # whole body -> C19FnSurf.sample_surface; bridge_sample_surface (+ C19Tri)
     "mouette/splines/bezier.py::de_casteljau": "translated",   # guard + loop nest read imperatively -> C19DC; source_deCasteljau_eq_model
-    "mouette/splines/bezier.py::BezierCurve.__init__": "modelled",   # Vec(x) per control point: representation cases + chist histories (oracle / correspondence)
+    "mouette/splines/bezier.py::BezierCurve.__init__": "translated",   # C19BezInit.curveInit; bridge_inits, init_representation_independent
     "mouette/splines/bezier.py::BezierCurve.order": "translated",      # C19FnCurve.curveOrder; bridge_orders, curve_evaluate_source (degree of the Bernstein form)
     "mouette/splines/bezier.py::BezierCurve.evaluate": "translated",   # delegation de_casteljau(self.pts, t) -> C19FnCurve.curveEvaluate; bridge_curveEvaluate
-    "mouette/splines/bezier.py::BezierCurve.as_polyline": "translated",   # edge loop bound + pair + linspace default -> C19Poly; bridge_polyEdge (vertex loop: oracle)
-    "mouette/splines/bezier.py::BezierPatch.__init__": "modelled",
+    "mouette/splines/bezier.py::BezierCurve.as_polyline": "translated",   # WHOLE body -> C19BezPoly.as_polyline; bridge_as_polyline, as_polyline_source_spec (+ C19Poly fragments)
+    "mouette/splines/bezier.py::BezierPatch.__init__": "translated",   # C19BezInit.patchInit; bridge_inits
     "mouette/splines/bezier.py::BezierPatch.order": "translated",      # C19FnCurve.patchOrder; bridge_orders
     "mouette/splines/bezier.py::BezierPatch._evaluate_row": "translated",   # C19Patch.evaluateRow; bridge_evaluateRow
     "mouette/splines/bezier.py::BezierPatch.evaluate": "translated",        # C19Patch.evaluate; bridge_patchEvaluate
-    "mouette/splines/bezier.py::BezierPatch.as_surface": "translated",      # loop bounds, quad, vertex parameters -> C19Surf/C19Patch; bridge_surfQuad, bridge_surfRanges, bridge_surfVert
+    "mouette/splines/bezier.py::BezierPatch.as_surface": "translated",      # WHOLE body -> C19BezSurf.as_surface; bridge_as_surface, as_surface_source_spec (+ C19Surf/C19Patch fragments)
     "mouette/geometry/aabb.py::AABB.__init__": "translated",     # which attribute holds which corner (copy of the caller's data): C19FnAABB, bridge_AABB
     "mouette/geometry/aabb.py::AABB.dim": "translated",
     "mouette/geometry/aabb.py::AABB.mini": "translated",
@@ -1789,7 +1813,7 @@ MANIFEST = {
                    "interpolates end control points, has convex-hull coefficients on [0,1], rejects parameters outside [0,1]; as_surface/as_polyline "
                    "indices are in range, injective and enumerate the loop nest for ALL (n1,n2). Index expressions, range bounds, guards, update "
                    "expressions, probability vectors and the barycentric/affine maps of sampling.py and bezier.py are re-extracted from the source "
-                   "with Python ast on every run (16 sites, bridge lemmas; the de_casteljau loop nest read imperatively is proved equal to the model); "
+                   "with Python ast on every run (19 sites, bridge lemmas; round 5: as_polyline, as_surface and the two constructors as whole functions, bridged to hand models, export clauses — one vertex per position, chain / grid quads with stride n2, indices in range, rejection — on the source for any sample counts; the de_casteljau loop nest read imperatively is proved equal to the model); "
                    "round 4: the five samplers and the AABB accessors they call are translated as WHOLE functions (statement order, guards, mode/option dispatch, enumerate loop with row stores, defaults) and proved EQUAL to the hand models (bridge_sample_*), so count / container / containment / normals clauses hold on what the source says for ANY random stream; the grid resolution has no ties (grid_no_halfway, grid_resolution_unique); the point-cloud/normals options are model functions with list-level theorems; the grid resolution test of the oracle is proved "
                    "equivalent to 'nearest integer to n^(1/d)'. The models are "
                    "tied to the code by a recorded-random-stream correspondence and a direct oracle (exact Fractions)."),
